@@ -10,7 +10,7 @@ import re
 from . import common as C
 from .simengine import lockstep, monitors, sweep, world as W
 
-LOCKSTEP_FAMILIES = {"mixed", "notimeout", "contain", "crash", "kill", "init", "leak", "break", "graceful", "timeouts"}
+LOCKSTEP_FAMILIES = {"respawn", "saturate", "mixed", "notimeout", "contain", "crash", "kill", "init", "leak", "break", "graceful", "timeouts"}
 
 
 def _sig(rec):
@@ -29,9 +29,13 @@ def run_job(job):
     """one scenario, one schedule.  job = dict(family, seed, props, lockstep, schedule?, scen?)"""
     scen = job.get("scen") or sweep.gen_scenario(job["seed"], job["family"])
     if job.get("schedule") is not None:
-        chooser = W.replay_chooser(job["schedule"], then=W.random_chooser(job["seed"], p_timeout=0.0, p_crash=0.0))
+        pt = 0.15 if (scen.get("timeout") and job.get("tolerate_divergence")) else 0.0
+        chooser = W.replay_chooser(job["schedule"], then=W.random_chooser(job["seed"], p_timeout=pt, p_crash=0.0))
     elif job.get("starve_bodies"):
         chooser = starving_chooser(job["seed"])
+    elif job.get("pct"):
+        chooser = W.pct_chooser(job["seed"], depth=1 + job["seed"] % 4, p_timeout=scen["sched"].get("p_timeout", 0.0),
+                                p_crash=(0.5 if scen["sched"].get("p_crash", 0.0) > 0 else 0.0))
     else:
         chooser = W.random_chooser(job["seed"], **scen["sched"])
     st, rec = W.forked(W.run_scenario, scen, chooser, job.get("max_steps", 4000))
@@ -39,6 +43,9 @@ def run_job(job):
     if st != "ok":
         out["detail"] = str(rec)[-500:]
         return out
+    if rec["end"] == "diverged" and job.get("tolerate_divergence"):
+        return {"family": job["family"], "seed": job["seed"], "status": "ok", "end": "diverged", "steps": rec["steps"], "fails": [],
+                "known": {}, "sig": "diverged", "kinds": [], "nontrivial": False, "ntimeouts": 0, "ncrashes": 0}
     fails, known, facts = monitors.evaluate_attributed(scen, rec, job["props"])
     if job.get("starve_bodies"):
         fails += monitors.starved(scen, rec, facts, job["props"])
@@ -121,6 +128,7 @@ class E1Part:
                 jobs.append({"family": fam, "seed": base + i, "props": self.props,
                              "lockstep": self.lockstep_on and fam in LOCKSTEP_FAMILIES,
                              "starve_bodies": bool(self.starve and i % self.starve == 0 and fam in ("kill", "saturate")),
+                             "pct": i % 5 in (1, 3) and fam not in ("saturate",),
                              "sample": i == 0})
         return jobs
 
@@ -216,6 +224,22 @@ class E1Part:
             for i in range(40):
                 jobs.append({"family": d["family"], "seed": d["seed"] * 131 + i, "props": self.props, "lockstep": False,
                              "scen": dict(d["input"]["scenario"])})
+        # fault enumeration on the disagreeing traces: a crash of every worker at every operation index
+        # (and, where idle time-outs are configured, a continuation in which they keep firing)
+        picked, seen_fam = [], collections.Counter()
+        for d in sorted(corr.disagreements, key=lambda d: -sum(1 for x in d["input"]["schedule"] if x[1] == "timeout")):
+            if seen_fam[d["family"]] < 3 and len(picked) < 10:
+                picked.append(d)
+                seen_fam[d["family"]] += 1
+        for d in picked:
+            sched = d["input"]["schedule"]
+            stride = max(1, len(sched) // 120)
+            for i in range(2, len(sched), stride):
+                workers = sorted({a for a, _ in sched[:i] if a.startswith("W")})
+                for w in workers:
+                    jobs.append({"family": d["family"], "seed": d["seed"] * 977 + i, "props": self.props, "lockstep": False,
+                                 "scen": dict(d["input"]["scenario"]), "schedule": [list(x) for x in sched[:i]] + [[w, "crash"]],
+                                 "tolerate_divergence": True})
         for j in self.jobs(ctx, n):
             j["seed"] += 7919
             j["lockstep"] = False
